@@ -198,9 +198,66 @@ def inline_return_temps(tree):
             blk.remove(a)
 
 
+class _Percent(ast.NodeTransformer):
+    """f'..{a}..{b!r}..{n:d}' is read as '..%s..%r..%d' % (a, b, n); a single
+    operand is written without the tuple ('%s' % (x,) likewise)"""
+
+    def visit_JoinedStr(self, node):
+        self.generic_visit(node)
+        fmt = []
+        args = []
+        for v in node.values:
+            if isinstance(v, ast.Constant) and isinstance(v.value, str):
+                fmt.append(v.value.replace("%", "%%"))
+            elif isinstance(v, ast.FormattedValue):
+                spec = v.format_spec
+                st = None
+                if isinstance(spec, ast.Constant):
+                    st = str(spec.value)
+                elif spec is not None:
+                    if not (isinstance(spec, ast.JoinedStr) and all(
+                            isinstance(x, ast.Constant)
+                            for x in spec.values)):
+                        return node
+                    st = "".join(x.value for x in spec.values)
+                if v.conversion == ord("r") and not st:
+                    fmt.append("%r")
+                elif v.conversion == -1 and st in (None, ""):
+                    fmt.append("%s")
+                elif v.conversion == -1 and st == "d":
+                    fmt.append("%d")
+                else:
+                    return node
+                args.append(v.value)
+            else:
+                return node
+        if not args:
+            return ast.copy_location(ast.Constant("".join(fmt).replace(
+                "%%", "%")), node)
+        right = args[0] if len(args) == 1 else ast.Tuple(args, ast.Load())
+        new = ast.BinOp(ast.Constant("".join(fmt)), ast.Mod(), right)
+        return ast.fix_missing_locations(ast.copy_location(new, node))
+
+    def visit_BinOp(self, node):
+        self.generic_visit(node)
+        if isinstance(node.op, ast.Mod) and isinstance(
+                node.left, ast.Constant) and isinstance(
+                    node.left.value, str) and isinstance(
+                        node.right, ast.Tuple) and \
+                len(node.right.elts) == 1 and not isinstance(
+                    node.right.elts[0], ast.Starred):
+            node.right = node.right.elts[0]
+        return node
+
+
+def percent_formatting(tree):
+    _Percent().visit(tree)
+
+
 def pre_normalise(tree):
     strip_noops(tree)
     inline_return_temps(tree)
+    percent_formatting(tree)
 
 
 _REF = None
